@@ -1222,7 +1222,7 @@ def run(ctx):
         if first or not quick:
             n = large_stream(ctx, rng, n, quick)
         # 3. main stream
-        n_tables = 30 if quick else max(40, 520 // getattr(ctx, "worker", (0, 1))[1])
+        n_tables = 30 if quick else max(30, 360 // getattr(ctx, "worker", (0, 1))[1])
         routes = ["dense", "csr", "csc", "coo", "csr_unsorted", "csr_zeros", "sort_roundtrip", "lil"]
         gens = ["BIOM-Format 2.1", "x", "généré par é"]
         for k in range(n_tables):
